@@ -1247,7 +1247,8 @@ def gen_floor_budget(rng, idx, big=False):
 def gen_floor_rework(rng, idx, big=False):
     """Rework loop: source -> buffer -> machine (its finish callback adds value) -> two complementary gates:
     'done' (value >= limit) to the sink, 'rework' (value < limit) back into the buffer; low traffic, so the
-    same part meets the same gate again with a different value and nothing else in between."""
+    same part meets the same gate again with a different value and nothing else in between; in half of the lines the
+    exit is busy or blocked now and then (the finished part is refused there and offered to the rework gate again)."""
     L = _hdr(rng, idx)
     add = rng.choice([3, 5])
     limit = add * rng.choice([2, 2, 3])
@@ -1258,8 +1259,20 @@ def gen_floor_rework(rng, idx, big=False):
     done, rework = (3, 4) if rng.random() < 0.5 else (4, 3)
     for g in (3, 4):
         L.append(['asset', 'dev', 'gate', 'up=2', f'pred=vge:{limit}' if g == done else f'pred=vlt:{limit}'])
-    L.append(['asset', 'dev', 'sink', f'up={done}', 'cyc=0', 'collect=1'])
+    # half of the lines have an exit that is not always free (a slow sink, or the exit gate / the sink blocked for a
+    # while): a finished part then finds its exit refused and is offered to the rework gate it has just come through
+    slow = rng.random() < 0.5
+    L.append(['asset', 'dev', 'sink', f'up={done}', f'cyc={rng.choice([6, 12, 20, 40]) if slow and rng.random() < 0.7 else 0}',
+              'collect=1'])
     L.append(['wire', '1', f'0,{rework}'])
+    if slow:
+        sched = []
+        for _ in range(rng.randint(0, 3)):
+            t = rng.randrange(4, 60)
+            d = rng.choice([done, 5])
+            sched.append((t, ['block', str(d), '1']))
+            sched.append((t + rng.choice([3, 7, 12, 25]), ['block', str(d), '0']))
+        _sched_ops(L, rng, sched)
     L.append(['run', str(rng.choice([64, 96, 160]))])
     L.append(['end'])
     return L
